@@ -2310,3 +2310,8 @@ def _path_stat(interp, path, **kw):
         o.closed = True
         store[key] = o
     return store[key]
+
+
+@model(slice)
+def _slice(interp, *args):
+    return slice(*args)
